@@ -9,6 +9,7 @@ By `Props/C16` the result does not depend on the schedules.
 `act` = the `quinn_proto::Event` the action produces at the peer (table below) followed by the re-polls of the woken
 tasks, `close` = `.close` / `.endpointClose` here and `ConnectionLost(ApplicationClosed)` at the peer. -/
 import Compio.Model.QuicWakers
+import Compio.Model.QuicEndpoint
 
 open Compio Compio.QuicWakers Compio.Gen.QuicWakers
 
@@ -147,6 +148,9 @@ structure DState where
   incoming : List (Nat × Nat) := []  -- (side, dir) per un-accepted stream
   credit : List (Nat × Nat) := []    -- (side, dir) with stream credit
   epClosed : List Nat := []
+  -- endpoint-level cases
+  ep : Compio.QuicEndpoint.Ep := Compio.QuicEndpoint.Ep.init
+  epends : List (Nat × Bool) := []   -- (line, done)
 
 def sideOf (s : String) : Option Nat :=
   if s == "c" then some 0 else if s == "s" then some 1 else none
@@ -396,6 +400,49 @@ def connC (ws : List String) (d : DState) : DState × String :=
   let d := setW d 1 ((getW d 1).step (.event .connected 0 false .applicationClosed)).1
   (d, "ok")
 
+/-! ### endpoint cases -/
+
+open Compio.QuicEndpoint in
+/-- apply `op`; every newly woken task polls `wait_incoming` again; returns the completions -/
+def epStepAndRepoll (d : DState) (op : EOp) : DState × List (Nat × String) :=
+  let e := d.ep
+  let e' := (e.step op).1
+  let woken := e'.woken.drop e.woken.length
+  woken.foldl (fun (acc : DState × List (Nat × String)) w =>
+    let (d, outs) := acc
+    if d.epends.any (fun p => p.1 == w && !p.2) then
+      match d.ep.step (.poll w) with
+      | (e2, some .incoming) =>
+        ({ d with ep := e2, epends := d.epends.map fun p => if p.1 == w then (p.1, true) else p },
+          outs ++ [(w, "ok:incoming")])
+      | (e2, some .none) =>
+        ({ d with ep := e2, epends := d.epends.map fun p => if p.1 == w then (p.1, true) else p },
+          outs ++ [(w, "ok:none")])
+      | (e2, _) => ({ d with ep := e2 }, outs)
+    else (d, outs)) ({ d with ep := e' }, [])
+
+open Compio.QuicEndpoint in
+def endpointOp (ws : List String) (d : DState) : DState × String :=
+  match ws with
+  | "ep" :: _ => ({ d with ep := Ep.init, epends := [] }, "ok")
+  | ["pend"] =>
+    let w := d.lineNo
+    match d.ep.step (.poll w) with
+    | (e', some .pending) => ({ d with ep := e', epends := d.epends ++ [(w, false)] }, "pending")
+    | (e', some .incoming) => ({ d with ep := e', epends := d.epends ++ [(w, true)] }, "ready:ok:incoming")
+    | (e', _) => ({ d with ep := e', epends := d.epends ++ [(w, true)] }, "ready:ok:none")
+  | ["act", "connect"] =>
+    let (d, outs) := epStepAndRepoll d (.datagram true)
+    (d, s!"done={showDone true outs}")
+  | ["close"] =>
+    let (d, outs) := epStepAndRepoll d .close
+    let stranded := (d.epends.filter (fun p => !p.2)).map fun p => toString p.1
+    (d, s!"closed={showDone false outs} stranded=[{",".intercalate stranded}]")
+  | ["shutdown"] =>
+    -- `shutdown` waits until every clone of the endpoint is dropped: the parked tasks hold one each
+    (d, if d.epends.all (·.2) then "ok" else "timeout")
+  | _ => (d, "bad-op")
+
 def step (d : DState) (line : String) : DState × String :=
   if line.startsWith "#case" then ({}, line.trimAscii.toString) else
   let ws := words line
@@ -412,6 +459,7 @@ def step (d : DState) (line : String) : DState × String :=
     | "C" :: "act" :: rest => actOp rest d
     | "C" :: "close" :: rest => closeOp rest d
     | "C" :: "syncclose" :: rest => syncCloseOp rest d
+    | "E" :: rest => endpointOp rest d
     | _ => (d, "bad-op")
   ({ d' with lineNo := d'.lineNo + 1 }, out)
 
